@@ -367,7 +367,9 @@ def small_scope_histories(max_len):
 # ---------------------------------------------------------------- workflow-level histories
 def gen_program(rng):
     """A pipeline: node = ["init", name] | ["step", task, src, label] | ["merge", [srcs]] |
-    ["sub", task, dep, label] (a parent task that creates the handle itself and applies `task`)."""
+    ["sub", task, dep, label] (a parent task that creates the handle itself and applies `task`) |
+    ["join", layout, [srcs], pick, label] (one task call receiving several states of the same handle name,
+    positionally / by keyword / in a list / mixed; it returns the pick-th of them, or all for pick -1)."""
     nodes = [["init", 0]]
     handle_nodes = [0]
     n = rng.randint(2, 6)
@@ -376,13 +378,21 @@ def gen_program(rng):
         if r < 0.62 or len(handle_nodes) < 2:
             src = rng.choice(handle_nodes[-3:]) if rng.random() < 0.7 else rng.choice(handle_nodes)
             nodes.append(["step", rng.randrange(4), src, rng.randrange(2)])
-        elif r < 0.85:
+        elif r < 0.78:
             srcs = rng.sample(handle_nodes, min(len(handle_nodes), rng.choice([2, 2, 3])))
             nodes.append(["merge", srcs])
+        elif r < 0.92:
+            srcs = rng.sample(handle_nodes, min(len(handle_nodes), rng.choice([2, 2, 3])))
+            nodes.append(["join", rng.choice(JOIN_LAYOUTS), srcs, rng.randrange(-1, len(srcs)), rng.randrange(2)])
         else:
             nodes.append(["sub", rng.randrange(4), len(nodes) - 1, 0])
-        handle_nodes.append(len(nodes) - 1)
+        if not (nodes[-1][0] == "join" and nodes[-1][3] < 0):     # a join returning all its states is a list
+            handle_nodes.append(len(nodes) - 1)
     return nodes
+
+
+def last_handle_node(prog):
+    return max(i for i, nd in enumerate(prog) if not (nd[0] == "join" and nd[3] < 0))
 
 
 def mutate(rng, runs):
@@ -393,7 +403,7 @@ def mutate(rng, runs):
     ver = dict(ver)
     r = rng.random()
     if r < 0.34:
-        t = rng.randrange(4)
+        t = rng.randrange(5)          # 4 = the join tasks
         ver[t] = ver.get(t, 0) + 1 if rng.random() < 0.7 else rng.choice([0, 1])
     elif r < 0.60 and len(runs) > 1:
         return json.loads(json.dumps(rng.choice(runs[:-1])[0])), dict(rng.choice(runs[:-1])[1])
@@ -403,16 +413,35 @@ def mutate(rng, runs):
             i = rng.choice(ms)
             prog[i] = ["merge", prog[i][1][:1]]      # merge_handles([x]) : the merge edge disappears
         else:
-            prog.append(["step", rng.randrange(4), len(prog) - 1, rng.randrange(2)])
+            prog.append(["step", rng.randrange(4), last_handle_node(prog), rng.randrange(2)])
     elif r < 0.86:
-        prog.append(["step", rng.randrange(4), len(prog) - 1, rng.randrange(2)])
+        prog.append(["step", rng.randrange(4), last_handle_node(prog), rng.randrange(2)])
     elif r < 0.93 and len(prog) > 2 and not any(
-            (nd[0] in ("step", "sub") and nd[2] == len(prog) - 1) or (nd[0] == "merge" and len(prog) - 1 in nd[1]) for nd in prog):
+            (nd[0] in ("step", "sub") and nd[2] == len(prog) - 1) or (nd[0] == "merge" and len(prog) - 1 in nd[1])
+            or (nd[0] == "join" and len(prog) - 1 in nd[2]) for nd in prog):
         prog.pop()
     return prog, ver
 
 
 CACHELESS = ["run", "cache_false", "CSE", "NONE"]
+JOIN_LAYOUTS = ["pos", "kw", "list", "mixed"]
+
+
+def join_histories(full):
+    """fork/join: h -> x = step0(h), y = step1(h) [, z = step2(h)]; join(x, y[, z]) returns one of them.
+    run / edit join / revert (and edit / edit / revert), for every layout and every returned argument."""
+    def prog(n, layout, pick):
+        return [["init", 0]] + [["step", i, 0, 0] for i in range(n)] + [["join", layout, list(range(1, n + 1)), pick, 0]]
+    combos = [(2, lay, pk) for lay in JOIN_LAYOUTS for pk in (0, 1)] + [(3, "pos", 0), (3, "pos", 1)]
+    if full:
+        combos += [(3, lay, pk) for lay in JOIN_LAYOUTS for pk in (0, 1, 2, -1)] + [(2, lay, -1) for lay in JOIN_LAYOUTS]
+    else:
+        combos.remove((2, "mixed", 1))
+    for n, lay, pk in combos:
+        p = prog(n, lay, pk)
+        yield [[p, {}, {}], [p, {"4": 1}, {}], [p, {}, {}]]
+    p = prog(2, "pos", 0)
+    yield [[p, {}, {}], [p, {"4": 1}, {}], [p, {"4": 2}, {}], [p, {}, {}]]
 
 
 def cacheless_histories():
@@ -548,6 +577,29 @@ class WfWorld:
                 return step
             steps[t] = mk()
 
+        jv = ver.get(4, 0)
+
+        @task(name="joinp", namespace=NS, version=str(jv))
+        def joinp(pick, label, x, y, z=None):
+            hs = [h for h in (x, y, z) if h is not None]
+            calls.append(("joinp", jv, label))
+            return hs if pick < 0 else hs[pick]
+
+        @task(name="joink", namespace=NS, version=str(jv))
+        def joink(pick, label, hs=(), a=None, b=None, c=None):
+            hs = list(hs) + [h for h in (a, b, c) if h is not None]
+            calls.append(("joink", jv, label))
+            return hs if pick < 0 else hs[pick]
+
+        def join(layout, xs, pick, label):
+            if layout == "pos":
+                return joinp(pick, label, *xs)
+            if layout == "kw":
+                return joink(pick, label, **dict(zip("abc", xs)))
+            if layout == "list":
+                return joink(pick, label, list(xs))
+            return joink(pick, label, [xs[0]], **dict(zip("bc", xs[1:])))
+
         @task(name="sub", namespace=NS, version="1")
         def sub(dep, t, label):
             return steps[t](H("conn", 0, namespace=NS), label)
@@ -562,6 +614,8 @@ class WfWorld:
                     vals.append(steps[nd[1]](vals[nd[2]], nd[3]))
                 elif nd[0] == "merge":
                     vals.append(merge_handles([vals[i] for i in nd[1]]))
+                elif nd[0] == "join":
+                    vals.append(join(nd[1], [vals[i] for i in nd[2]], nd[3], nd[4]))
                 else:
                     vals.append(sub(vals[nd[2]], nd[1], nd[3]))
             return [vals[-1], vals[1:]]
@@ -604,7 +658,8 @@ class Check(PropertyCheck):
     theorems = ["C25_refines_fixed", "C25_rollback_invalidates_descendants_fixed", "C25_rollback_frame_fixed",
                 "C25_rederive_revalidates", "C25_sound_partial", "C25_shipped_rollback_valid_paths_partial",
                 "C25_rollback_refuted", "C25_rollback_refuted_merge", "C25_replay_checked_partial",
-                "C25_no_invalid_replay_fixed", "C25_replay_cse_refuted", "C25_nonvacuous"]
+                "C25_no_invalid_replay_fixed", "C25_replay_cse_refuted", "C25_nonvacuous",
+                "C25_perform_rollbacks_all_fixed", "C25_first_per_name_refuted"]
     allowed_axioms = []
     assumptions = [
         "a handle hash determines its fullname, key and value_hash (hash_struct is collision free, C14); the model "
@@ -668,11 +723,13 @@ class Check(PropertyCheck):
             cases.append((doc["kind"], doc["ops"] if doc["kind"] == "backend" else doc["runs"]))
         for runs in cacheless_histories():
             cases.append(("workflow", runs))
+        for runs in join_histories(not quick):
+            cases.append(("workflow", runs))
         for ops in small_scope_histories(3 if quick else 4):
             cases.append(("backend", ops))
         for _ in range(150 if quick else 4000):
             cases.append(("backend", gen_backend_history(self.rng, self.rng.randint(4, 16))))
-        for _ in range(12 if quick else 300):
+        for _ in range(10 if quick else 300):
             runs = [(gen_program(self.rng), {})]
             for _ in range(self.rng.randint(2, 5)):
                 runs.append(mutate(self.rng, runs))
@@ -693,13 +750,24 @@ class Check(PropertyCheck):
             return self._done
         world = World()
         terms, descr = [], []
+        self.crashed = []
         try:
             for kind, payload in self.histories():
+                try:
+                    if kind == "backend":
+                        tr = run_backend_history(world, payload)
+                    else:
+                        w, per_run = run_workflow_history(world, payload)
+                except Exception:       # the history itself failed on the real code: keep going, report it
+                    import traceback
+                    self.crashed.append(({"kind": kind, ("ops" if kind == "backend" else "runs"): payload},
+                                         traceback.format_exc()[-1500:]))
+                    world.close()
+                    world = World()
+                    continue
                 if kind == "backend":
-                    tr = run_backend_history(world, payload)
                     extra = []
                 else:
-                    w, per_run = run_workflow_history(world, payload)
                     tr, extra = w.tr, w.replays[:1]
                     self.stat("workflow_runs", len(payload))
                     self.stat("workflow_task_executions", "total", sum(len(c) for c in per_run))
@@ -751,6 +819,8 @@ class Check(PropertyCheck):
 
     def oracle(self):
         terms, _ = self.execute()
+        self.ob("oracle", "every generated history runs to completion on the real code", not self.crashed,
+                "".join(f"\n{json.dumps(r)[:700]}\n{tb}" for r, tb in self.crashed[:2]))
         unknown = [f for f in self.findings if f.key not in (KEY_ROLLBACK, KEY_CSE)]
         self.ob("oracle", f"tables == reference lineage model after every op, and no replay of a result with an invalidated "
                           f"handle state, on {len(terms)} histories (known keys excepted)", not unknown,
